@@ -3069,7 +3069,7 @@ impl Cuesheet {
                                     f,
                                     "    INDEX {:02} {}",
                                     index.number,
-                                    Timestamp::from(index.offset + track.offset),
+                                    Timestamp::from(index.offset.saturating_add(track.offset)),
                                 )?;
                             }
                         }
@@ -3320,7 +3320,7 @@ impl Cuesheet {
             } => Box::new(
                 tracks
                     .iter()
-                    .map(|t| t.offset + t.index_points.start())
+                    .map(|t| t.offset.saturating_add(*t.index_points.start()))
                     .chain(std::iter::once(lead_out.offset)),
             ),
         }
@@ -3416,7 +3416,9 @@ impl Cuesheet {
         let multiplier = u64::from(channel_count) * u64::from(bits_per_sample.div_ceil(8));
 
         self.track_sample_ranges()
-            .map(move |std::ops::Range { start, end }| start * multiplier..end * multiplier)
+            .map(move |std::ops::Range { start, end }| {
+                start.saturating_mul(multiplier)..end.saturating_mul(multiplier)
+            })
     }
 }
 
